@@ -181,6 +181,37 @@ def check_ignored_then_supported():
     return None
 
 
+def check_formats_one_decoder():
+    """C07: the same fast-packet message delivered frame by frame and pre-assembled gives the same message - also when ONE
+    decoder receives both forms, in either order."""
+    from nmea2000.decoder import NMEA2000Decoder
+    frames = [bytes(int(x, 16) for x in f.split(',')[6:]) for f in FAST]
+    n = frames[0][1]
+    payload = (frames[0][2:] + b''.join(fr[1:] for fr in frames[1:]))[:n]
+    head = ','.join(FAST[0].split(',')[:5])
+    whole = f"{head},{n}," + ','.join(f'{b:02x}' for b in payload)
+    ref = sig(NMEA2000Decoder().decode_basic_string(whole, True))
+    if ref is None:
+        return {'observed': 'the pre-assembled reference message does not decode', 'frame': whole}
+    for order in ('whole-then-frames', 'frames-then-whole'):
+        dec = NMEA2000Decoder()
+        got = []
+        steps = [(whole, True)] + [(f, False) for f in FAST] if order == 'whole-then-frames' else [(f, False) for f in FAST] + [(whole, True)]
+        for ln, comb in steps * 2:
+            try:
+                got.append(sig(dec.decode_basic_string(ln, comb)))
+            except Exception as e:  # noqa
+                got.append(('raise', type(e).__name__))
+        want = []
+        for ln, comb in steps * 2:
+            want.append(ref if (comb or ln == FAST[-1]) else None)
+        if got != want:
+            k = next(i for i, (a, b) in enumerate(zip(got, want)) if a != b)
+            return {'order': order, 'step': k, 'input': (steps * 2)[k][0], 'pre_assembled': (steps * 2)[k][1], 'observed': str(got[k])[:200], 'expected': str(want[k])[:200],
+                    'history': 'one decoder receives the same PGN 129029 message pre-assembled and frame by frame'}
+    return None
+
+
 def check_identity():
     """C11: identity attached = latest claim of the source address; manufacturer lists; withholding."""
     from nmea2000.decoder import NMEA2000Decoder
@@ -219,23 +250,27 @@ def check_identity():
 
 def check_dump():
     from nmea2000.decoder import NMEA2000Decoder
-    for dp in ([], [127250], ['vesselHeading'], ['VesselHeading', 127251], ['furunoheave'], [65280, 'isoAddressClaim']):
-        with tempfile.TemporaryDirectory() as td:
-            path = os.path.join(td, 'dump.jsonl')
-            dec = NMEA2000Decoder(dump_to_file=path, dump_pgns=dp)
-            outs = decode_all(dec)
-            dec.close()
-            lines = open(path).read().splitlines()
-            dn = [x for x in dp if isinstance(x, int)]
-            di = [x.lower() for x in dp if isinstance(x, str)]
-            want = [m.to_json() for m in outs if m is not None and not isinstance(m, tuple) and ((not dn and not di) or m.PGN in dn or m.id.lower() in di)]
-            if lines != want:
-                return {'dump_pgns': dp, 'observed': f'{len(lines)} lines', 'expected': f'{len(want)} lines (JSON of every returned message matching the filter, in order)',
-                        'first_difference': next((i for i, (a, b) in enumerate(zip(lines, want)) if a != b), min(len(lines), len(want)))}
+    from nmea2000.consts import PhysicalQuantities as PQ
+    for prefs in ({}, {PQ.ANGLE: 'deg', PQ.TEMPERATURE: 'C', PQ.SPEED: 'kts'}):
+        for dp in ([], [127250], ['vesselHeading'], ['VesselHeading', 127251], ['furunoheave'], [65280, 'isoAddressClaim']):
+            with tempfile.TemporaryDirectory() as td:
+                path = os.path.join(td, 'dump.jsonl')
+                dec = NMEA2000Decoder(dump_to_file=path, dump_pgns=dp, preferred_units=prefs)
+                outs = decode_all(dec, HISTORY * 12)           # more than a hundred dumped lines
+                dec.close()
+                text = open(path).read()
+                dn = [x for x in dp if isinstance(x, int)]
+                di = [x.lower() for x in dp if isinstance(x, str)]
+                want = [m.to_json() for m in outs if m is not None and not isinstance(m, tuple) and ((not dn and not di) or m.PGN in dn or m.id.lower() in di)]
+                if text != ''.join(w + '\n' for w in want):
+                    lines = text.split('\n')
+                    k = next((i for i, (a, b) in enumerate(zip(lines, want)) if a != b), min(len(lines), len(want)))
+                    return {'dump_pgns': dp, 'preferred_units': {q.name: u for q, u in prefs.items()}, 'observed': f'{len(lines) - 1} lines; line {k}: {lines[k][:160] if k < len(lines) else None}',
+                            'expected': f'{len(want)} lines, each the JSON of a returned message matching the filter followed by a newline; line {k}: {want[k][:160] if k < len(want) else None}'}
     return None
 
 
-BATTERY = {'C10': [check_filters, check_filtered_fast_packets], 'C11': [check_identity, check_filters], 'C15': [check_dump], 'C16': [check_filters, check_identity, check_filtered_fast_packets, check_ignored_then_supported], 'C08': [], 'C17': [check_hash_presence]}
+BATTERY = {'C10': [check_filters, check_filtered_fast_packets], 'C11': [check_identity, check_filters], 'C15': [check_dump], 'C16': [check_filters, check_identity, check_filtered_fast_packets, check_ignored_then_supported, check_formats_one_decoder], 'C08': [], 'C17': [check_hash_presence], 'C07': [check_formats_one_decoder]}
 
 
 _MEMO = {}
